@@ -31,6 +31,7 @@ def run(F, tier):
     grules.g7(rep, tms, F)
     grules.g8(rep, tms)
     grules.g9(rep, tms)
+    grules.g12(rep, tms)
     for tm in tms[:3]:
         if tm.g:
             rep.sample({"type": tm.name,
